@@ -125,6 +125,8 @@ def r02_1(prog, rep, tier):
                 def call_eval(c, store):
                     fn = c.get("fn")
                     if fn and (fn.endswith("_p")):
+                        if store.get("$fresh") and any(q.get("k") == "ref" and q.get("n") in (cand, rng[0]) for a in c["a"] for q in walk(cfg.resolve(a))):
+                            return None     # a candidate peeked anew is any event: what is known about the old one says nothing
                         return int(bool(pe.call(fn, [obj(a) for a in c["a"]])))
                     return None
 
@@ -140,6 +142,10 @@ def r02_1(prog, rep, tier):
                     if isinstance(x, dict) and x.get("k") != "call" and any(n.get("k") == "ref" and n.get("n") == popp for n in walk(x)) \
                             and not any(True for _ in calls(x)):
                         acts.append("DELIVER")
+                        if store.get("$fresh"):
+                            acts.append("UNCHECKED")
+                    if isinstance(x, dict) and any(lv(l_) == cand for l_, k_, n_ in writes(x)):
+                        return {"$fresh": 1}
                     return None
                 w = AbsWalk(f, set(), effect=effect, call_eval=call_eval)
                 # the popp test forks; the walk stops when control returns to the step start or leaves the function
@@ -148,6 +154,8 @@ def r02_1(prog, rep, tier):
                 # DELIVER path pops this->e under popp: that is the delivery, not a skip
                 if "DELIVER" in acts:
                     acts_set = ("DELIVER",)
+                if "UNCHECKED" in acts:
+                    acts_set = ("SKIP", "DELIVER-NEXT-UNCHECKED")
                 if w.forks > 1 and "DELIVER" not in acts:
                     raise AnalysisBroken("next_evfilt: cascade branches on something the model does not decide (F=%d X=%d L=%d)" % (F, X, L))
                 ot = (L > 0, order_type((F, F + L, X, X + L)))
@@ -183,6 +191,8 @@ def r02_1(prog, rep, tier):
                 ("SKIP",): "the occurrence is dropped",
                 ("ADVANCE",): "the exception is consumed",
                 ("DELIVER",): "the occurrence is delivered",
+                ("SKIP", "DELIVER-NEXT-UNCHECKED"): "the occurrence is dropped and the one behind it is delivered without being compared with the "
+                                                    "exceptions (a run of excluded occurrences lets every second one through)",
             }.get(act, "the filter does %s" % (act,))
             rep.fail(rid, key, loc,
                      "single step of the exception filter with %s, %s, %s (e.g. e.from=%d, ex.beg=%d, both durations %d): %s, but the statement requires %s" % (
